@@ -287,6 +287,11 @@ func (lq *LQ) SolveVecTo(dst *VecDense, trans bool, b Vector) error {
 
 	// The Solve implementation is non-trivial, so rather than duplicate the code,
 	// instead recast the VecDenses as Dense and call the matrix code.
+	if trans {
+		dst.reuseAsNonZeroed(r)
+	} else {
+		dst.reuseAsNonZeroed(c)
+	}
 	bm := Matrix(b)
 	if rv, ok := b.(RawVectorer); ok {
 		bmat := rv.RawVector()
@@ -295,11 +300,6 @@ func (lq *LQ) SolveVecTo(dst *VecDense, trans bool, b Vector) error {
 		}
 		b := VecDense{mat: bmat}
 		bm = b.asDense()
-	}
-	if trans {
-		dst.reuseAsNonZeroed(r)
-	} else {
-		dst.reuseAsNonZeroed(c)
 	}
 	return lq.SolveTo(dst.asDense(), trans, bm)
 }
